@@ -4,6 +4,7 @@ import (
 	"archive/tar"
 	"os"
 	"strings"
+	"time"
 
 	vm "github.com/pojntfx/stfs/internal/verifmodel"
 	"github.com/pojntfx/stfs/pkg/config"
@@ -41,7 +42,63 @@ func Harness_C09_tape_reveals_only_sizes() {
 	}
 	// one call of each kind of record: directory, file with content, metadata update, move, symlink, delete
 	var err error
-	switch vm.Choice("op", 6) {
+	switch vm.Choice("op", 12) {
+	case 6:
+		err = v.FS.Mkdir("/secretdir", 0o750)
+		if err == nil {
+			err = v.FS.Chown("/secretdir", 1234, 5678)
+		}
+	case 7:
+		err = v.FS.Mkdir("/secretdir", 0o750)
+		if err == nil {
+			err = v.FS.Chtimes("/secretdir", time.Unix(1234567, 0), time.Unix(7654321, 0))
+		}
+	case 8:
+		err = v.FS.MkdirAll("/secretdir/nested/deeper", 0o750)
+	case 9:
+		err = v.FS.MkdirAll("/secretdir/nested", 0o750)
+		if err == nil {
+			err = v.FS.RemoveAll("/secretdir")
+		}
+	case 10:
+		// content replaced through a second handle, then emptied
+		h, e := v.FS.Create("/secretfile")
+		err = e
+		if e == nil {
+			_, err = h.Write([]byte("topsecret"))
+			if cerr := h.Close(); err == nil {
+				err = cerr
+			}
+		}
+		if err == nil {
+			h2, e2 := v.FS.OpenFile("/secretfile", os.O_RDWR, 0)
+			err = e2
+			if e2 == nil {
+				_, err = h2.WriteAt([]byte("X"), 3)
+				if terr := h2.Truncate(5); err == nil {
+					err = terr
+				}
+				if cerr := h2.Close(); err == nil {
+					err = cerr
+				}
+			}
+		}
+	case 11:
+		// a file with content is renamed into a directory
+		err = v.FS.Mkdir("/secretdir", 0o750)
+		if err == nil {
+			h, e := v.FS.Create("/secretfile")
+			err = e
+			if e == nil {
+				_, err = h.Write([]byte("topsecret"))
+				if cerr := h.Close(); err == nil {
+					err = cerr
+				}
+			}
+		}
+		if err == nil {
+			err = v.FS.Rename("/secretfile", "/secretdir/moved")
+		}
 	case 0:
 		err = v.FS.Mkdir("/secretdir", 0o750)
 	case 1:
